@@ -105,6 +105,8 @@ class Field:
             self.__get__(instance)._update(value)
         else:  # TODO check if below is really needed
             ftype, offset = self.get_offset(instance)
+            if hasattr(ftype, "_check_update"):
+                ftype._check_update(instance._buffer, offset, value)
             ftype._to_buffer(instance._buffer, offset, value)
 
     def get_offset(self, instance):  # compatible with info
